@@ -20,6 +20,8 @@ pool — and demands
                       instance is recorded in `tasks_to_hold`; the hold point in force is the one set;
 * `hold-lost`         across a restart: hold point, `tasks_to_hold` and the held flag of every pooled
                       instance are what they were before the stop;
+A hold point given at start-up (`cylc play --hold-after`, case field `start_hold`) counts as a hold-point
+command issued before the first observation.
 * `rehold-after-restart` (recorded finding) the one documented exception: instances beyond the hold point
                       that were released individually are held again by the restart.
 
@@ -207,33 +209,61 @@ def monStep (g : Graph) (idx : Nat) (opJ : Json) (pre post : Ob) (m : Mon) : Mon
     | _ => ([], [])
   { H := h3, hp := hp1, fails := m.fails ++ f1 ++ f2 ++ f3 ++ f4 ++ f5 ++ f6, finds := m.finds ++ d6 }
 
-def monRun (g : Graph) (ops : List Json) (obs : List Ob) : Mon :=
+/-- the monitor at start-up: with a hold point given on the command line (`--hold-after`) every instance
+of the first observation beyond it must be held, and the point must be in force -/
+def monStart (startHold : Option Int) (ob0 : Ob) : Mon :=
+  match startHold with
+  | none => {}
+  | some p =>
+    let h := (ob0.pool.filter fun x => x.key.1 > p).map (·.key)
+    let f1 := ob0.pool.filterMap fun x =>
+      if x.key.1 > p && !x.held then
+        some s!"hold-not-in-force: {showKey x.key} is in the pool beyond the start-up hold point {p} and not held, after start-up"
+      else none
+    let f2 := if ob0.hPoint == some p then [] else
+      [s!"hold-not-in-force: start-up hold point {p} but the scheduler has {showPt ob0.hPoint}, after start-up"]
+    { H := h, hp := some p, fails := f1 ++ f2 }
+
+def monRun (g : Graph) (startHold : Option Int) (ops : List Json) (obs : List Ob) : Mon :=
   let rec go (idx : Nat) (ops : List Json) (obs : List Ob) (m : Mon) : Mon :=
     match ops, obs with
     | op :: ops', pre :: post :: rest => go (idx + 1) ops' (post :: rest) (monStep g idx op pre post m)
     | _, _ => m
-  go 0 ops obs {}
+  go 0 ops obs (monStart startHold (obs.headD default))
 
 /-- `none`: the property holds on the trace; otherwise the first violation, or — when every failure belongs
 to the recorded finding — the first of those -/
-def judge (g : Graph) (opsJ : List Json) (o : Json) : Option String :=
+def judge (g : Graph) (startHold : Option Int) (opsJ : List Json) (o : Json) : Option String :=
   let obs := (obsList o).map parseOb
   if obs.length != opsJ.length + 1 then
     some s!"trace-shape: {obs.length} observations for {opsJ.length} operations"
   else
-    let m := monRun g opsJ obs
+    let m := monRun g startHold opsJ obs
     match m.fails, m.finds with
     | w :: _, _ => some w
     | [], w :: _ => some w
     | [], [] => none
 
+/-- the model's observations.  A hold point given at start-up is applied by `Scheduler.configure` right after the
+pool is loaded, through the same `set_hold_point` command as later ones: the start-up state is the state after the
+op list `[setHoldPoint p]`, of which the state before the command is not observable. -/
+def modelObsFrom (c : Case) (startHold : Option Int) : Json :=
+  match startHold with
+  | none => modelObs c
+  | some p => jOfList (obsJson c.graph) ((run c.graph (Op.setHoldPoint p :: c.ops)).drop 1)
+
 def handle (i o : Json) : Except String Reply := do
   if let some r := crashReply? i then return r
   let c ← parseCase i
   let opsJ := (jArrField? i "ops").getD []
-  match judge c.graph opsJ o with
-  | some w => return { model := modelObs c, holds := false, why := w }
-  | none => return { model := modelObs c, holds := true }
+  let startHold : Option Int := match jOptField i "start_hold" with
+    | some j => match jInt? j with
+      | some v => some v
+      | none => (jStr? j).bind String.toInt?
+    | none => none
+  match judge c.graph startHold opsJ o with
+  | some w => return { model := modelObsFrom c startHold, holds := false, why := w }
+  | none => return { model := modelObsFrom c startHold, holds := true }
 
 end CylcModel.DrvC06
 
